@@ -143,6 +143,10 @@ def run(tier):
                         rec_unwrap(urec, enc, spec, create_AES128(akey).encrypt(b"B" + bytes([n + 2]) + bytes(pad) + p + wrong.to_bytes(2, "big")))
         if need:
             raise MachineryError("no payloads found for the CRC byte classes %r" % sorted(need))
+        # one encryptor object through refused frames (wrong checksum / length / marker) and valid ones in turn: the
+        # checksum of a frame depends on that frame's payload only
+        from .. import errpaths as E
+        E.container_error_paths(urec, r, rec_wrap, rec_unwrap, B2)
         urej, ust = tlc.validate_trace(os.path.join(SPEC, "Trace_Bec2.tla"), TCFG, urec.events, os.path.join(wd, "use"), shards=16)
         ubyid = {e["tid"]: e for e in urec.events}
         for x in urej:
